@@ -55,6 +55,7 @@ type c3arg struct {
 	incs []c3inc
 	nums  []uint64
 	align int64 // -1: none
+	ixs   []c3arg
 }
 
 func c3Operand(s string) c3operand {
@@ -103,6 +104,14 @@ func c3Inst(named map[string]*types.StructType, s string) c3inst {
 				for _, it := range strings.Split(a[1:], "&") {
 					f := strings.SplitN(it, "~", 2)
 					arg.incs = append(arg.incs, c3inc{c3Operand(f[0]), c3Ident(f[1])})
+				}
+			case 'G':
+				if len(a) > 1 {
+					for _, it := range strings.Split(a[1:], "&") {
+						var ix c3arg
+						ix.ty, ix.op = c3TyOperand(named, it)
+						arg.ixs = append(arg.ixs, ix)
+					}
 				}
 			case 'K':
 				if len(a) > 1 {
@@ -342,6 +351,9 @@ func core3BuildIn(named map[string]*types.StructType, a []string) *ir.Func {
 				obj = &ir.InstExtractValue{Indices: in.args[1].nums, Typ: c3AggElem(in.args[0].ty, in.args[1].nums)}
 			case in.row == 72:
 				obj = &ir.InstInsertValue{Indices: in.args[2].nums, Typ: in.args[0].ty}
+			case in.row == 73:
+				// (the result type is computed from the operands once they are filled in; the generator gives a getelementptr no getelementptr operands)
+				obj = &ir.InstGetElementPtr{ElemType: in.args[0].ty}
 			default:
 				panic("harness: bad row")
 			}
@@ -391,6 +403,11 @@ func core3BuildIn(named map[string]*types.StructType, a []string) *ir.Func {
 			x.Src, x.Dst = operand(as[0].ty, as[0].op), operand(as[1].ty, as[1].op)
 			if as[2].align >= 0 {
 				x.Align = ir.Align(as[2].align)
+			}
+		case *ir.InstGetElementPtr:
+			x.Src = operand(as[1].ty, as[1].op)
+			for _, ix := range as[2].ixs {
+				x.Indices = append(x.Indices, operand(ix.ty, ix.op))
 			}
 		case *ir.InstExtractValue:
 			x.X = operand(as[0].ty, as[0].op)
@@ -498,6 +515,11 @@ func core3BuildIn(named map[string]*types.StructType, a []string) *ir.Func {
 			}
 		}
 	}
+	for _, p := range pends {
+		if g, ok := p.inst.(*ir.InstGetElementPtr); ok {
+			g.Type()
+		}
+	}
 	return fn
 }
 
@@ -512,8 +534,9 @@ func init() {
 	})
 	// the real parser on the text of one function definition
 	reg("core3.parse", func(a []string) string {
-		m, err := asm.ParseString("x.ll", string(unhexArg(a[0]))+"\n")
-		if err != nil || len(m.Funcs) != 1 {
+		// (a panic of the parser - e.g. a getelementptr index beyond the fields of a struct - counts as a rejection here)
+		m, _ := parseOutcome(string(unhexArg(a[0])) + "\n")
+		if m == nil || len(m.Funcs) != 1 {
 			return "error"
 		}
 		out := safe(func([]string) string { return hexOut([]byte(m.Funcs[0].LLString())) }, nil)
